@@ -263,6 +263,9 @@ def det_jobs(tier, seed):
         for fo in (False, True):
             jobs.append(dict(kind="traj", key="traj:%s:%s:%d" % (n, fo, seed), scenario=("bench_yaml", n), seed=seed,
                              steps=300 if tier == "quick" else 1500, fo=fo, repeat=2))
+            # the same key again on ONE environment object that is re-seeded and reset between repetitions
+            jobs.append(dict(kind="traj", key="traj:%s:%s:%d" % (n, fo, seed), scenario=("bench_yaml", n), seed=seed,
+                             steps=300 if tier == "quick" else 1500, fo=fo, repeat=3, reuse=True))
     for n in ["small-gen", "medium-gen"]:
         jobs.append(dict(kind="traj", key="traj:%s:%d" % (n, seed), scenario=("gen", bench_params(n, seed)),
                          seed=seed + 1, steps=300, repeat=2))
